@@ -134,9 +134,14 @@ func evalCLI(c CLICase) (problems []string) {
 	if err := w.WriteDir("migrations", map[string]string{"1_f.sql": cliBody(next)}); err != nil {
 		return []string{"harness: " + err.Error()}
 	}
+	// the recorded history as the table holds it (the time of the run and the operator's version are
+	// bookkeeping of the attempt, not history).
+	const rawRevs = "SELECT version, description, type, applied, total, error, error_stmt, hash, partial_hashes FROM atlas_schema_revisions ORDER BY version"
 	before, _ := w.Query("db.sqlite", "SELECT sid FROM journal ORDER BY rowid")
+	revsBefore, _ := w.Query("db.sqlite", rawRevs)
 	r2 := apply()
 	after, _ := w.Query("db.sqlite", "SELECT sid FROM journal ORDER BY rowid")
+	revsAfter, _ := w.Query("db.sqlite", rawRevs)
 	if strings.Contains(r2.Stderr, "panic:") {
 		bad("`migrate apply` panicked: %s", r2)
 		return
@@ -149,6 +154,9 @@ func evalCLI(c CLICase) (problems []string) {
 		}
 		if fmt.Sprint(before) != fmt.Sprint(after) {
 			bad("apply refused the changed history but executed statements: journal %v -> %v", before, after)
+		}
+		if fmt.Sprint(revsBefore) != fmt.Sprint(revsAfter) {
+			bad("apply refused the changed history but rewrote it: revision rows %v -> %v", revsBefore, revsAfter)
 		}
 	case c.Edit == "none":
 		if r2.Exit == 0 {
